@@ -58,6 +58,35 @@ class Crash(BaseException):
     """simulated process death: propagates through every `except Exception/OSError`"""
 
 
+def _dangling_root():
+    """an absolute path (directly below /) that does not exist when the run starts — and cannot come into existence while it
+    runs: the Recorder refuses every mutating call outside the scratch area.  Absolute symlink targets of the generators
+    live below it (for the model an absolute target is an opaque dangling string).  Chosen per run; a fixed name would
+    make every later run depend on what an earlier run of broken code may have left there."""
+    n = 0
+    while True:
+        p = "/nonexistent-verif-%d-%d" % (os.getpid(), n)
+        if not os.path.lexists(p):
+            return p
+        n += 1
+
+
+DANGLING = _dangling_root()
+
+
+def redangle(obj):
+    """replayed cases were recorded with another run's dangling root: re-point their absolute targets to this run's"""
+    if isinstance(obj, str):
+        if obj.startswith("/nonexistent-verif"):
+            return DANGLING + obj[len(obj.split("/")[1]) + 1:]
+        return obj
+    if isinstance(obj, list):
+        return [redangle(x) for x in obj]
+    if isinstance(obj, dict):
+        return {k: redangle(v) for k, v in obj.items()}
+    return obj
+
+
 MUTATORS = ["mkdir", "rmdir", "unlink", "remove", "symlink", "mkfifo", "mknod", "link", "rename", "replace",
             "lchown", "chown", "chmod", "utime", "truncate", "makedirs", "removedirs"]
 
@@ -96,6 +125,21 @@ class Recorder:
         p = os.path.normpath(p) + "/"
         return any(p.startswith(r + "/") for r in (self.root,) + self.aliases)
 
+    def refuse_escape(self, p):
+        """a mutating call on a path outside the scratch area (the directory holding the root, its aliases, the system's
+        temporary directory) is NOT performed: it is recorded in `outside` (the harnesses report that as a violation) and
+        fails with EACCES.  Code under test that resolves a location through an absolute symlink target must not be able to
+        litter the machine (and thereby change what later runs of the generators mean by a dangling target)."""
+        p = os.fspath(p)
+        if isinstance(p, bytes):
+            p = os.fsdecode(p)
+        p = os.path.normpath(os.path.join(os.getcwd(), p)) + "/"
+        allowed = (os.path.dirname(self.root), tempfile.gettempdir()) + tuple(os.path.dirname(a) for a in self.aliases)
+        if any(p.startswith(r.rstrip("/") + "/") for r in allowed):
+            return
+        self.outside.append(p.rstrip("/"))
+        raise PermissionError(errno.EACCES, "verification harness: mutating call outside the scratch area refused", p.rstrip("/"))
+
     def umask(self):
         um = os.umask(0)
         os.umask(um)
@@ -120,6 +164,9 @@ class Recorder:
         R = self
 
         def f(*a, **kw):
+            for i_ in ((1,) if name == "symlink" else (0, 1) if name in ("link", "rename", "replace") else (0,)):
+                if not isinstance(a[i_], int):
+                    R.refuse_escape(a[i_])
             if name == "symlink":
                 rec = ["symlink", a[0], R.rel(a[1])]
             elif name in ("link", "rename", "replace"):
@@ -173,6 +220,7 @@ class Recorder:
                 return R.real_open(file, mode, *a, **kw)
             path = os.fspath(file)
             if not R.inside(path):
+                R.refuse_escape(path)
                 return R.real_open(file, mode, *a, **kw)      # e.g. the engine's own tempdir
             if "b" not in mode:
                 raise RuntimeError("text-mode write under the scratch root is not modelled: %r %r" % (path, mode))
@@ -466,7 +514,7 @@ def gen_pre(rng, size=None):
                 t = rng.choice(files)
                 target = os.path.relpath("/" + "/".join(t), "/" + "/".join(parent))
             elif tk < 0.9:
-                target = rng.choice(["nowhere", "../nope", "a/b/c", "/nonexistent-verif/x"])
+                target = rng.choice(["nowhere", "../nope", "a/b/c", DANGLING + "/x"])
             else:
                 target = rng.choice(NAMES)
             nd.update(k="sym", target=target, mode=0o777)
@@ -521,7 +569,7 @@ def gen_entries(rng, pre, wellformed=True):
                     e["key"] = [rng.choice([1, 2]), rng.randint(2, 6)]
                     groups.append(dict(e))
         elif k < 0.92:
-            e.update(k="sym", target=rng.choice(["a", "../b", "lib64", "nowhere", "/nonexistent-verif/t", "./c/../d"]), mode=0o777)
+            e.update(k="sym", target=rng.choice(["a", "../b", "lib64", "nowhere", DANGLING + "/t", "./c/../d"]), mode=0o777)
         else:
             e.update(k="fifo")
         ents[p] = e
@@ -797,7 +845,7 @@ def _literal_link(pre_snap, symlocs, p, fuel=8):
         return True
     t = nd["target"]
     if t.startswith("/"):
-        return t.startswith("/nonexistent-verif")
+        return t.startswith(DANGLING + "/")
     cur = p[:-1]
     comps = t.split("/")
     for n, c in enumerate(comps):
@@ -1368,7 +1416,7 @@ def run(ctx):
     rng = ctx.rng
     cases = [(pre, ents, off, "corpus") for pre, ents, off in CORPUS] + small_universe()
     if ctx.replay_cases:
-        cases = [(c["pre"], c["entries"], c["offset"], "replay") for c in ctx.replay_cases if "entries" in c] + cases
+        cases = [(c["pre"], c["entries"], c["offset"], "replay") for c in map(redangle, ctx.replay_cases) if "entries" in c] + cases
     n = ctx.n(800, 9000)
     for i in range(n):
         g = rng.random()
